@@ -55,6 +55,7 @@
 #include <pthread.h>
 #include <sched.h>
 #include <errno.h>
+#include <signal.h>
 #include <stdatomic.h>
 #include <stdint.h>
 
@@ -82,6 +83,8 @@ int __real_pthread_mutex_lock(pthread_mutex_t*);
 int __real_pthread_mutex_unlock(pthread_mutex_t*);
 int __real_pthread_mutex_trylock(pthread_mutex_t*);
 int __real_pthread_join(pthread_t, void**);
+int __real_pthread_create(pthread_t*, const pthread_attr_t*, void* (*)(void*), void*);
+int __real_pthread_kill(pthread_t, int);
 void* __real_malloc(size_t);
 void* __real_calloc(size_t, size_t);
 
@@ -240,13 +243,13 @@ static void noise(void) {
 }
 
 static void malloc_noise_off(void);
-enum { FN_NONE, FN_LOCK, FN_TRYLOCK, FN_UNLOCK, FN_JOIN };
+enum { FN_NONE, FN_LOCK, FN_TRYLOCK, FN_UNLOCK, FN_JOIN, FN_CREATE, FN_STOP };
 static __thread int tl_cello_sync = 0;            /* the current pthread call is made by a Cello operation under test */
 static __thread int tl_inject_fn = FN_NONE, tl_inject_err = 0;
 static __thread int tl_prim_calls = 0;            /* primitive calls seen during the current Cello operation */
 static __thread void* tl_prim_target = NULL;      /* first argument of the last primitive call */
 static __thread int tl_prim_fn = FN_NONE;
-static atomic_long prim_total[5];
+static atomic_long prim_total[7];
 
 int __wrap_pthread_mutex_lock(pthread_mutex_t* m) {
   if (!tl_cello_sync) return __real_pthread_mutex_lock(m);
@@ -275,6 +278,22 @@ int __wrap_pthread_join(pthread_t t, void** r) {
   tl_prim_calls++; tl_join_target = t; tl_prim_fn = FN_JOIN; atomic_fetch_add(&prim_total[FN_JOIN], 1);
   if (tl_inject_fn == FN_JOIN) { tl_inject_fn = FN_NONE; return tl_inject_err; }
   return __real_pthread_join(t, r);
+}
+/* extension round: pthread_create under Thread_Call and pthread_kill under Thread_Stop.  Only calls made by a Cello operation
+   under test (`perr create E` / `perr stop E`) are counted; an injected result replaces the primitive (no thread is made, no
+   signal is sent: the default action of SIGINT ends the whole process) */
+int __wrap_pthread_create(pthread_t* t, const pthread_attr_t* a, void* (*f)(void*), void* arg) {
+  if (!tl_cello_sync) return __real_pthread_create(t, a, f, arg);
+  tl_prim_calls++; tl_prim_target = arg; tl_prim_fn = FN_CREATE; atomic_fetch_add(&prim_total[FN_CREATE], 1);
+  if (tl_inject_fn == FN_CREATE) { tl_inject_fn = FN_NONE; return tl_inject_err; }
+  return __real_pthread_create(t, a, f, arg);
+}
+static __thread int tl_kill_sig = 0;
+int __wrap_pthread_kill(pthread_t t, int sig) {
+  if (!tl_cello_sync) return __real_pthread_kill(t, sig);
+  tl_prim_calls++; tl_join_target = t; tl_kill_sig = sig; tl_prim_fn = FN_STOP; atomic_fetch_add(&prim_total[FN_STOP], 1);
+  if (tl_inject_fn == FN_STOP) { tl_inject_fn = FN_NONE; return tl_inject_err; }
+  return __real_pthread_kill(t, sig);
 }
 static int malloc_noise = 0;
 static void malloc_noise_off(void) { malloc_noise = 0; }
@@ -454,6 +473,8 @@ static const char* errname_doc(int fn, int err) {   /* the documented translatio
     case FN_TRYLOCK: return err == EBUSY ? "0" : err == EINVAL ? "ValueError" : "1";
     case FN_UNLOCK: return err == EINVAL ? "ValueError" : err == EPERM ? "ResourceError" : "ok";
     case FN_JOIN: return err == EINVAL ? "ValueError" : err == ESRCH ? "ValueError" : err == EDEADLK ? "ResourceError" : "ok";
+    case FN_CREATE: return err == EINVAL ? "ValueError" : err == EAGAIN ? "OutOfMemoryError" : err == EBUSY ? "BusyError" : "ok";
+    case FN_STOP: return err == EINVAL ? "ValueError" : err == ESRCH ? "ValueError" : "ok";
   }
   return "?";
 }
@@ -714,8 +735,18 @@ static void exec_local(Evt* e, var* held) {
         case FN_TRYLOCK: V_TRY(exc, res = trylock(scratch_mutex[me])); break;
         case FN_UNLOCK: V_TRY(exc, unlock(scratch_mutex[me])); break;
         case FN_JOIN: ((struct Thread*)scratch_thread[me])->thread = pthread_self(); V_TRY(exc, join(scratch_thread[me])); break;
+        case FN_CREATE: V_TRY(exc, call(scratch_thread[me], tid_obj[me])); break;
+        case FN_STOP: ((struct Thread*)scratch_thread[me])->thread = pthread_self(); V_TRY(exc, stop(scratch_thread[me])); break;
       }
-      prim_end(fn, fn == FN_JOIN ? NULL : mutex_prim(scratch_mutex[me]), e->line); tl_inject_fn = FN_NONE;
+      prim_end(fn, fn == FN_CREATE ? scratch_thread[me] : fn == FN_JOIN || fn == FN_STOP ? NULL : mutex_prim(scratch_mutex[me]), e->line); tl_inject_fn = FN_NONE;
+      if (fn == FN_CREATE) {
+        /* Thread_Call made the raw copy of the argument tuple before pthread_create: it stays with the Thread object when the call fails */
+        struct Thread* st = scratch_thread[me];
+        if (st->args is NULL) XX("sig=c13-wrapper line=%d what=Thread_Call did not keep a copy of the argument tuple", e->line);
+        else { del_raw(st->args); st->args = NULL; }
+        if (st->is_running) XX("sig=c13-wrapper line=%d what=a Thread object whose pthread_create was replaced is marked running", e->line);
+      }
+      if (fn == FN_STOP && (!pthread_equal(tl_join_target, pthread_self()) || tl_kill_sig != SIGINT)) XX("sig=c13-wrapper line=%d what=stop signalled another pthread or sent signal %d", e->line, tl_kill_sig);
       char b[64];
       if (exc) snprintf(b, sizeof b, "%s", v_exc_name(exc)); else if (fn == FN_TRYLOCK) snprintf(b, sizeof b, "%d", res); else snprintf(b, sizeof b, "ok");
       if (strcmp(b, errname_doc(fn, err)) != 0) XX("sig=c13-errmap line=%d what=primitive %d failing with errno %d gives %s, documented %s", e->line, fn, err, b, errname_doc(fn, err));
@@ -1092,7 +1123,7 @@ static int parse_event(char* line, Evt* e) {
   else if (!strcmp(op, "lookup") && na == 2 && LT(0, 3) && LT(1, 8)) { e->op = OP_LOOKUP; e->a = atol(a[0]); e->b = atol(a[1]); }
   else if (!strcmp(op, "pub") && na == 1 && LT(0, 1000000)) { e->op = OP_PUB; e->a = atol(a[0]); }
   else if (!strcmp(op, "perr") && na == 2) {
-    int fn = !strcmp(a[0], "lock") ? FN_LOCK : !strcmp(a[0], "trylock") ? FN_TRYLOCK : !strcmp(a[0], "unlock") ? FN_UNLOCK : !strcmp(a[0], "join") ? FN_JOIN : FN_NONE;
+    int fn = !strcmp(a[0], "lock") ? FN_LOCK : !strcmp(a[0], "trylock") ? FN_TRYLOCK : !strcmp(a[0], "unlock") ? FN_UNLOCK : !strcmp(a[0], "join") ? FN_JOIN : !strcmp(a[0], "create") ? FN_CREATE : !strcmp(a[0], "stop") ? FN_STOP : FN_NONE;
     int er = parse_errno(a[1]); if (fn == FN_NONE || er < 0) FAIL; e->op = OP_PERR; e->a = fn; e->b = er; }
   else if (!strcmp(op, "work") && na == 3 && LT(0, 4) && LT(1, 1000000) && LT(2, 1000000)) { e->op = OP_WORK; e->a = atol(a[0]); e->b = atol(a[1]); e->c = atol(a[2]); }
   else if (!strcmp(op, "spawn") && na == 1 && LT(0, MAXT) && atol(a[0]) >= 1) { e->op = OP_SPAWN; e->a = atol(a[0]); }
@@ -1201,8 +1232,8 @@ int main(int argc, char** argv) {
     printf("O %zu %d %s %s\n", i, e->tid, opname[e->op], o);
   }
   long gsum = 0; for (int t = 0; t < MAXT; t++) gsum += atomic_load(&garb_fin[t]);
-  I("events=%zu workers=%d mode=%s prim lock=%ld trylock=%ld unlock=%ld join=%ld garbage-finalised=%ld workloads=%zu", nev, nworkers, free_mode ? "free" : "sched",
-    atomic_load(&prim_total[FN_LOCK]), atomic_load(&prim_total[FN_TRYLOCK]), atomic_load(&prim_total[FN_UNLOCK]), atomic_load(&prim_total[FN_JOIN]), gsum, nsolo);
+  I("events=%zu workers=%d mode=%s prim lock=%ld trylock=%ld unlock=%ld join=%ld create=%ld stop=%ld garbage-finalised=%ld workloads=%zu", nev, nworkers, free_mode ? "free" : "sched",
+    atomic_load(&prim_total[FN_LOCK]), atomic_load(&prim_total[FN_TRYLOCK]), atomic_load(&prim_total[FN_UNLOCK]), atomic_load(&prim_total[FN_JOIN]), atomic_load(&prim_total[FN_CREATE]), atomic_load(&prim_total[FN_STOP]), gsum, nsolo);
   fflush(stdout);
   for (int u = 1; u <= nworkers; u++) if (!managed[u]) { del_raw(thread_obj[u]); }     /* the managed ones belong to their maker's collector */
   return 0;
